@@ -14,7 +14,10 @@ use std::num::NonZeroUsize;
 use std::sync::atomic::Ordering;
 use std::sync::Arc;
 use vm_memory::bitmap::AtomicBitmap;
+#[cfg(not(feature = "xen"))]
 use vm_memory::mmap::MmapRegionBuilder;
+#[cfg(feature = "xen")]
+use vm_memory::{MmapRange, MmapRegion};
 use vm_memory::{
     Address, Be64, ByteValued, Bytes, FileOffset, GuestAddress, GuestMemory, GuestMemoryError, GuestMemoryMmap,
     GuestMemoryRegion, GuestRegionMmap, Le16, Le32, MemoryRegionAddress,
@@ -87,9 +90,14 @@ pub struct GmWorld {
     exp_dirty: HashMap<u64, BTreeSet<usize>>,
     pub streams: Streams,
     pub d1_seen: bool,
+    /// xen build: backing file and the file offset of region byte 0 (on-demand regions have no host pointer)
+    files: HashMap<u64, (std::fs::File, u64, bool)>,
+    /// byte ranges (rid, offset, len) the current op was specified to touch (C17 window oracle)
+    touched: Vec<(u64, usize, usize)>,
+    xen_live: Vec<(u64, u32)>,
 }
 
-fn region_bytes(r: &Reg) -> &[u8] {
+fn ptr_bytes(r: &Reg) -> &[u8] {
     unsafe { std::slice::from_raw_parts(r.as_ptr(), r.len() as usize) }
 }
 fn region_dirty(r: &Reg) -> BTreeSet<usize> {
@@ -100,10 +108,30 @@ fn region_dirty(r: &Reg) -> BTreeSet<usize> {
 impl GmWorld {
     pub fn new() -> Self {
         GmWorld { pending: HashMap::new(), mems: HashMap::new(), layouts: HashMap::new(), info: HashMap::new(), by_ptr: HashMap::new(),
-                  regs: HashMap::new(), mirror: HashMap::new(), exp_dirty: HashMap::new(), streams: Streams::default(), d1_seen: false }
+                  regs: HashMap::new(), mirror: HashMap::new(), exp_dirty: HashMap::new(), streams: Streams::default(), d1_seen: false, files: HashMap::new(), touched: vec![], xen_live: vec![] }
     }
     pub fn reset(&mut self) {
         *self = GmWorld::new();
+        // dropping advance-mapped grant regions unmaps them: not part of the next case's log
+        #[cfg(feature = "xen")]
+        let _ = vm_memory::verif_hooks::xen_log_take();
+    }
+
+    /// current contents of a region: through its host pointer, or (on-demand Xen regions) through the backing file
+    fn region_bytes(&self, r: &Reg) -> Vec<u8> {
+        let rid = self.rid_of(r);
+        match self.files.get(&rid) {
+            Some((f, off, true)) => {
+                use std::os::unix::fs::FileExt;
+                let mut v = vec![0u8; r.len() as usize];
+                f.read_exact_at(&mut v, *off).unwrap();
+                v
+            }
+            _ => ptr_bytes(r).to_vec(),
+        }
+    }
+    pub fn is_ondemand(&self, rid: u64) -> bool {
+        matches!(self.files.get(&rid), Some((_, _, true)))
     }
 
     fn rid_of(&self, r: &Reg) -> u64 {
@@ -111,7 +139,7 @@ impl GmWorld {
     }
 
     fn fmt_region(&self, r: &Reg) -> String {
-        format!("[{}:{}:{} h={} d={}]", r.start_addr().raw_value(), r.len(), self.rid_of(r), fnv1a(region_bytes(r)),
+        format!("[{}:{}:{} h={} d={}]", r.start_addr().raw_value(), r.len(), self.rid_of(r), fnv1a(&self.region_bytes(r)),
                 words(&crate::bitmap::bm_words(r.bitmap())))
     }
     fn fmt_state(&self, m: &AnyMem) -> String {
@@ -124,20 +152,53 @@ impl GmWorld {
     /// create one region; returns (region or error string, host base)
     fn make_region(&mut self, kv: &Kv) -> Result<Arc<Reg>, String> {
         let (start, len, page, rid) = (kv.n("start"), kv.us("len"), kv.us("page").max(1), kv.n("rid"));
-        let bm = AtomicBitmap::new(len, NonZeroUsize::new(page).unwrap());
-        let mut b = MmapRegionBuilder::new_with_bitmap(len, bm).with_mmap_prot(libc::PROT_READ | libc::PROT_WRITE);
-        if kv.s("back") == "file" {
-            let f = crate::streams::tmpfile_pub();
-            f.set_len(kv.n("foff") + len as u64).unwrap();
-            b = b.with_file_offset(FileOffset::new(f, kv.n("foff"))).with_mmap_flags(libc::MAP_NORESERVE | libc::MAP_SHARED);
-        } else {
-            b = b.with_mmap_flags(libc::MAP_ANONYMOUS | libc::MAP_NORESERVE | libc::MAP_PRIVATE);
-        }
-        let mapping = b.build().map_err(|e| format!("err mmap {:?}", e))?;
+        #[cfg(not(feature = "xen"))]
+        let mapping = {
+            let bm = AtomicBitmap::new(len, NonZeroUsize::new(page).unwrap());
+            let mut b = MmapRegionBuilder::new_with_bitmap(len, bm).with_mmap_prot(libc::PROT_READ | libc::PROT_WRITE);
+            if kv.s("back") == "file" {
+                let f = crate::streams::tmpfile_pub();
+                f.set_len(kv.n("foff") + len as u64).unwrap();
+                b = b.with_file_offset(FileOffset::new(f, kv.n("foff"))).with_mmap_flags(libc::MAP_NORESERVE | libc::MAP_SHARED);
+            } else {
+                b = b.with_mmap_flags(libc::MAP_ANONYMOUS | libc::MAP_NORESERVE | libc::MAP_PRIVATE);
+            }
+            b.build().map_err(|e| format!("err mmap {:?}", e))?
+        };
+        // Xen build: UNIX, foreign, grant (mapped in advance) and grant on-demand regions through the
+        // emulated ioctls of hook H3.  The bitmap page size is the system's (NewBitmap::with_len).
+        #[cfg(feature = "xen")]
+        let mapping: MmapRegion<AtomicBitmap> = {
+            let _ = (page, NonZeroUsize::new(1));
+            let xk = kv.s("xk");
+            let range = match xk {
+                "foreign" | "grant" | "ondemand" => {
+                    let f = crate::streams::tmpfile_pub();
+                    // grant reference r designates file offset r * 4096; foreign mappings start at file offset 0
+                    let fbase = if xk == "foreign" { 0 } else { start & !(1u64 << 63) & !4095 };
+                    f.set_len(fbase + len as u64 + 8192).unwrap();
+                    self.files.insert(rid, (f.try_clone().unwrap(), if xk == "foreign" { 0 } else { start & !(1u64 << 63) }, xk == "ondemand"));
+                    let flags = match xk { "foreign" => 1, "grant" => 2, _ => 0xa };
+                    MmapRange::new(len, Some(FileOffset::new(f, 0)), GuestAddress(start), flags, 7)
+                }
+                _ => {
+                    if kv.s("back") == "file" {
+                        let f = crate::streams::tmpfile_pub();
+                        f.set_len(kv.n("foff") + len as u64).unwrap();
+                        MmapRange::new_unix(len, Some(FileOffset::new(f, kv.n("foff"))), GuestAddress(start))
+                    } else {
+                        MmapRange::new_unix(len, None, GuestAddress(start))
+                    }
+                }
+            };
+            MmapRegion::from_range(range).map_err(|e| format!("err mmap {:?}", e))?
+        };
         match GuestRegionMmap::new(mapping, GuestAddress(start)) {
             Ok(r) => {
                 let r = Arc::new(r);
                 self.by_ptr.insert(Arc::as_ptr(&r) as usize, rid);
+                #[cfg(feature = "xen")]
+                let page = 4096usize;
                 self.info.insert(rid, RInfo { rid, start, len, page });
                 self.mirror.insert(rid, vec![0u8; len]);
                 self.exp_dirty.insert(rid, BTreeSet::new());
@@ -178,6 +239,7 @@ impl GmWorld {
         while i < data.len() {
             let Some((r, off)) = Self::locate(lay, cur) else { break };
             let take = (r.len - off).min(data.len() - i);
+            self.touched.push((r.rid, off, take));
             self.mirror.get_mut(&r.rid).unwrap()[off..off + take].copy_from_slice(&data[i..i + take]);
             let set = self.exp_dirty.get_mut(&r.rid).unwrap();
             for p in off / r.page..=(off + take - 1) / r.page {
@@ -209,15 +271,53 @@ impl GmWorld {
         out
     }
 
+    /// Xen build (C17): every byte range the op touched on an on-demand region lies inside a temporary
+    /// mapping requested during the op, and every temporary mapping was released again.
+    #[cfg(feature = "xen")]
+    fn xen_post(&mut self, rec: &mut Rec, op: &str, line: &str) {
+        let log = vm_memory::verif_hooks::xen_log_take();
+        let creating = matches!(op, "g.region" | "g.insert" | "g.begin" | "g.drop");
+        for (rid, off, n) in std::mem::take(&mut self.touched) {
+            if n == 0 { continue; }
+            if let Some((_, fbase, true)) = self.files.get(&rid) {
+                let (lo, hi) = (fbase + off as u64, fbase + (off + n) as u64);
+                if !log.iter().any(|r| r.map && r.index <= lo && hi <= r.index + r.count as u64 * 4096) {
+                    rec.fail("C17", &format!("{}/xen-window-does-not-cover", op), &format!("{} region={} bytes=[{},{}) log={:?}", line, rid, off, off + n, log));
+                }
+            }
+        }
+        let before = self.xen_live.clone();
+        for r in &log {
+            if r.map {
+                self.xen_live.push((r.index, r.count));
+            } else if let Some(i) = self.xen_live.iter().position(|x| *x == (r.index, r.count)) {
+                self.xen_live.remove(i);
+            } else {
+                rec.fail("C17", &format!("{}/xen-unmap-without-map", op), &format!("{} {:?}", line, r));
+            }
+        }
+        if !creating && self.xen_live != before {
+            rec.fail("C17", &format!("{}/xen-window-not-released", op), &format!("{} live={:?}", line, self.xen_live));
+            self.xen_live = before;
+        }
+        *rec.notes.entry("xen_ioctls".into()).or_default() += log.len();
+    }
+    #[cfg(not(feature = "xen"))]
+    fn xen_post(&mut self, _rec: &mut Rec, _op: &str, _line: &str) {
+        self.touched.clear();
+    }
+
     /// after every op: every region's bytes equal the oracle's flat array (frame), dirty bits sound and precise
     fn post(&mut self, rec: &mut Rec, op: &str, line: &str) {
+        self.xen_post(rec, op, line);
         let rids: Vec<u64> = self.regs.keys().copied().collect();
         for rid in rids {
             let r = self.regs[&rid].clone();
-            if region_bytes(&r) != &self.mirror[&rid][..] {
-                let i = region_bytes(&r).iter().zip(self.mirror[&rid].iter()).position(|(a, b)| a != b).unwrap_or(0);
+            let now = self.region_bytes(&r);
+            if now != self.mirror[&rid] {
+                let i = now.iter().zip(self.mirror[&rid].iter()).position(|(a, b)| a != b).unwrap_or(0);
                 rec.fail("C03", &format!("{}/bytes", op), &format!("{} region={} first-diff-off={}", line, rid, i));
-                self.mirror.insert(rid, region_bytes(&r).to_vec());
+                self.mirror.insert(rid, now);
             }
             let got = region_dirty(&r);
             let exp = &self.exp_dirty[&rid];
@@ -257,7 +357,12 @@ impl GmWorld {
         let out = match r {
             Some(o) => o,
             None => {
-                rec.fail("C07", &format!("{}/panic", op), line);
+                let zero = (kv.op.ends_with("vf") || kv.op.ends_with("vt")) && kv.us("count") == 0;
+                if zero {
+                    rec.fail("C18", &format!("{}/zero-count/panic", op), line);
+                } else {
+                    rec.fail("C07", &format!("{}/panic", op), line);
+                }
                 "panic".into()
             }
         };
@@ -479,6 +584,13 @@ impl GmWorld {
                     Ok((p, l)) => {
                         let Some((r, off)) = want else { rec.fail("C02", "g.slice/granted-misfit", line); return "ok ?".into() };
                         let base = self.regs[&r.rid].as_ptr() as usize;
+                        if self.is_ondemand(r.rid) {
+                            // the guard points into a temporary window: only the in-page offset is comparable
+                            if (l > 0 && p % 4096 != (r.start as usize + off) % 4096) || l != cnt {
+                                rec.fail("C01", "g.slice/extent", line);
+                            }
+                            return format!("ok {} {} {}", r.start, off, l);
+                        }
                         if p != base + off || l != cnt {
                             rec.fail("C01", "g.slice/extent", line);
                         }
@@ -785,6 +897,12 @@ impl GmWorld {
                 match reg.get_slice(ra, cnt) {
                     Ok(s) => {
                         let p = s.ptr_guard().as_ptr() as usize;
+                        if self.is_ondemand(rid) {
+                            if !fits || (cnt > 0 && p % 4096 != (inf.start as usize + a as usize) % 4096) || s.len() != cnt {
+                                rec.fail("C01", "gr.slice/outside-parent", line);
+                            }
+                            return format!("ok {} {}", a, s.len());
+                        }
                         if !fits || p != reg.as_ptr() as usize + a as usize || s.len() != cnt {
                             rec.fail("C01", "gr.slice/outside-parent", line);
                         }
@@ -872,6 +990,7 @@ struct Gen<'a> {
     w: GmWorld,
     rec: &'a mut Rec,
     next_rid: u64,
+    xk: &'static str,
 }
 impl Gen<'_> {
     fn go(&mut self, line: String, nt: bool) -> String {
@@ -883,7 +1002,7 @@ impl Gen<'_> {
     fn region_line(&mut self, prefix: &str, start: u64, len: usize, page: usize, file: bool, foff: u64) -> String {
         let rid = self.next_rid;
         self.next_rid += 1;
-        let line = format!("{} start={} len={} page={} rid={} back={} foff={} base={{BASE}}", prefix, start, len, page, rid, if file { "file" } else { "anon" }, foff);
+        let line = format!("{} start={} len={} page={} rid={} back={} foff={} xk={} base={{BASE}}", prefix, start, len, page, rid, if file { "file" } else { "anon" }, foff, self.xk);
         let out = self.w.exec(self.rec, &line);
         let base = self.w.regs.get(&rid).map(|r| r.as_ptr() as usize).unwrap_or(0);
         self.rec.push(line.replace("{BASE}", &base.to_string()), out.clone(), true);
@@ -924,7 +1043,12 @@ fn marks_of(lay: &[(u64, usize)]) -> Vec<u64> {
 }
 
 pub fn run(rec: &mut Rec, rng: &mut Rng, n_ops: usize, mode: &str) {
-    let mut g = Gen { w: GmWorld::new(), rec, next_rid: 0 };
+    #[cfg(feature = "xen")]
+    if mode == "xen" {
+        xen_probes(rec);
+    }
+    let mut g = Gen { w: GmWorld::new(), rec, next_rid: 0, xk: "unix" };
+    let xen = mode == "xen";
     let mut done = 0usize;
     if mode == "exhaustive" {
         // small universe (C02): every query at every address 0..=25 x lengths 0..=26 over small layouts
@@ -955,8 +1079,12 @@ pub fn run(rec: &mut Rec, rng: &mut Rng, n_ops: usize, mode: &str) {
     }
     while done < n_ops {
         g.rec.cases += 1;
-        let lay = gen_layout(rng, false);
-        let kind = if mode == "edit" || rng.chance(2, 3) { "mmap" } else { "linear" };
+        let lay = if xen {
+            // page-granular layouts at small guest addresses (the guest address selects the grant references)
+            let mut cur = 0x10000u64 * (1 + rng.below(4));
+            (0..1 + rng.below(3)).map(|_| { let l = *rng.pick(&[4096usize, 8192, 12288, 4096 + 100, 5000]); let s = cur; cur += ((l as u64 + 4095) & !4095) + 4096 * rng.below(2); (s, l) }).collect()
+        } else { gen_layout(rng, false) };
+        let kind = if mode == "edit" || xen || rng.chance(2, 3) { "mmap" } else { "linear" };
         g.go("g.begin m=0".into(), false);
         let mut defs: Vec<(u64, usize, usize)> = vec![];
         let shuffle = mode == "edit" && rng.chance(1, 6);
@@ -966,7 +1094,10 @@ pub fn run(rec: &mut Rec, rng: &mut Rng, n_ops: usize, mode: &str) {
         }
         for &k in &order {
             let (s, l) = lay[k];
-            let page = *rng.pick(&[1usize, 2, 3, 7, 64, 128, 4096, 8192]);
+            let page = if xen { 4096 } else { *rng.pick(&[1usize, 2, 3, 7, 64, 128, 4096, 8192]) };
+            if xen {
+                g.xk = *rng.pick(&["unix", "foreign", "grant", "ondemand", "ondemand"]);
+            }
             g.region_line("g.region m=0", s, l, page, rng.chance(1, 4), *rng.pick(&[0u64, 4096]));
             defs.push((s, l, page));
         }
@@ -1026,7 +1157,8 @@ pub fn run(rec: &mut Rec, rng: &mut Rng, n_ops: usize, mode: &str) {
                     continue;
                 }
             } else if r < 12 {
-                let q = *rng.pick(&["g.find", "g.tra", "g.air", "g.ca", "g.host", "g.last", "g.num", "g.layout"]);
+                // (host addresses of on-demand Xen regions are not meaningful: not queried in xen mode)
+                let q = *rng.pick(&["g.find", "g.tra", "g.air", "g.ca", if xen { "g.find" } else { "g.host" }, "g.last", "g.num", "g.layout"]);
                 format!("{} m={} a={}", q, mi, a)
             } else if r < 20 {
                 let l = if rng.chance(1, 3) { rng.boundary(&marks) } else { len as u64 };
@@ -1046,6 +1178,7 @@ pub fn run(rec: &mut Rec, rng: &mut Rng, n_ops: usize, mode: &str) {
                     _ => format!("g.robj m={} a={} t={} ts={} ta={}", mi, a, t.0, t.1, t.2),
                 }
             } else if r < 56 {
+                if xen { continue; }
                 let at = rng.pick(ATOMICS).clone();
                 let aa = if rng.chance(3, 4) { a & !(at.1 as u64 - 1) } else { a };
                 if rng.chance(1, 2) {
@@ -1078,10 +1211,11 @@ pub fn run(rec: &mut Rec, rng: &mut Rng, n_ops: usize, mode: &str) {
                     3 => format!("gr.wobj m={} i={} a={} t={} ts={} ta={} data={}", mi, i, ra, t.0, t.1, t.2, hex(&rng.bytes(t.1))),
                     4 => format!("gr.read m={} i={} a={} len={}", mi, i, ra, len),
                     5 => format!("gr.rslice m={} i={} a={} len={}", mi, i, ra, len),
+                    6 | 7 if xen => continue,
                     6 => { let at = rng.pick(ATOMICS).clone(); format!("gr.store m={} i={} a={} t={} ts={} ta={} data={}", mi, i, ra & !(at.1 as u64 - 1), at.0, at.1, at.1, hex(&rng.bytes(at.1))) }
                     7 => { let at = rng.pick(ATOMICS).clone(); format!("gr.load m={} i={} a={} t={} ts={} ta={}", mi, i, ra, at.0, at.1, at.1) }
                     8 => format!("gr.slice m={} i={} a={} cnt={}", mi, i, ra, if rng.chance(1, 3) { rng.boundary(&[rl]) } else { len as u64 }),
-                    9 => format!("gr.host m={} i={} a={}", mi, i, ra),
+                    9 if !xen => format!("gr.host m={} i={} a={}", mi, i, ra),
                     10 => format!("gr.co m={} i={} a={} off={}", mi, i, ra, rng.boundary(&[rl])),
                     11 => format!("gr.tra m={} i={} a={}", mi, i, a),
                     12 => format!("gr.last m={} i={}", mi, i),
@@ -1100,5 +1234,47 @@ pub fn run(rec: &mut Rec, rng: &mut Rng, n_ops: usize, mode: &str) {
             };
             g.go(line, nt);
         }
+    }
+}
+
+/// Xen build: operations that bypass the pointer guard on an on-demand region dereference the
+/// region's null-based pointer.  Each probe runs in a forked child so that a crash is an
+/// observation, not a dead harness.
+#[cfg(feature = "xen")]
+pub fn xen_probes(rec: &mut Rec) {
+    use vm_memory::{GuestMemoryRegion, VolatileMemory};
+    fn in_child(f: impl FnOnce()) -> Result<(), i32> {
+        unsafe {
+            let pid = libc::fork();
+            if pid == 0 {
+                f();
+                libc::_exit(0);
+            }
+            let mut st = 0;
+            libc::waitpid(pid, &mut st, 0);
+            if libc::WIFSIGNALED(st) { Err(libc::WTERMSIG(st)) } else if libc::WEXITSTATUS(st) != 0 { Err(-libc::WEXITSTATUS(st)) } else { Ok(()) }
+        }
+    }
+    let mk = || {
+        let f = crate::streams::tmpfile_pub();
+        f.set_len(0x40000).unwrap();
+        let range = MmapRange::new(8192, Some(FileOffset::new(f, 0)), GuestAddress(0x10000), 0xa, 7);
+        let region: MmapRegion<AtomicBitmap> = MmapRegion::from_range(range).unwrap();
+        GuestRegionMmap::new(region, GuestAddress(0x10000)).unwrap()
+    };
+    let probes: Vec<(&str, Box<dyn Fn(&Reg)>)> = vec![
+        ("atomic-store", Box::new(|r: &Reg| { let _ = r.store(5u32, MemoryRegionAddress(16), Ordering::SeqCst); })),
+        ("atomic-load", Box::new(|r: &Reg| { let _ = r.load::<u32>(MemoryRegionAddress(16), Ordering::SeqCst); })),
+        ("write-obj", Box::new(|r: &Reg| { r.write_obj(5u32, MemoryRegionAddress(16)).unwrap(); })),
+        ("array-copy-from-u32", Box::new(|r: &Reg| { let s = r.get_slice(MemoryRegionAddress(0), 8192).unwrap(); s.get_array_ref::<u32>(0, 2048).unwrap().copy_from(&[7u32; 2048]); })),
+        ("ref-store-u64", Box::new(|r: &Reg| { let s = r.get_slice(MemoryRegionAddress(4090), 64).unwrap(); s.get_ref::<u64>(2).unwrap().store(9); })),
+    ];
+    for (name, p) in probes {
+        let r = mk();
+        match in_child(|| p(&r)) {
+            Ok(()) => rec.note(&format!("xen_probe_ok_{}", name)),
+            Err(sig) => rec.fail("C17", &format!("xen-ondemand/{}/crash", name), &format!("child ended with signal/exit {}", sig)),
+        }
+        let _ = vm_memory::verif_hooks::xen_log_take();
     }
 }
